@@ -8,11 +8,13 @@ EXTENDS FoxStrings
 \*   brokenPipe / connReset   *net.OpError wrapping an os.SyscallError EPIPE / ECONNRESET
 \*   otherOpError   *net.OpError with another cause
 \*   error, string, nilval (panic(nil) -> *runtime.PanicNilError), custom
-Classes == {"abort", "wrappedAbort", "brokenPipe", "connReset", "otherOpError", "error", "string", "nilval", "custom"}
+\*   brokenPipeWrapped / connResetNested   the same syscall error one level deeper inside the *net.OpError (wrapped
+\*                  with %w, or carried by a nested *net.OpError)
+Classes == {"abort", "wrappedAbort", "brokenPipe", "connReset", "brokenPipeWrapped", "connResetNested", "otherOpError", "error", "string", "nilval", "custom"}
 Progress == {"none", "header", "partial", "flushed"}    \* flushed: the header went out through Flush, no explicit WriteHeader
 
 Repanic(class) == class \in {"abort", "wrappedAbort"}
-Broken(class) == class \in {"brokenPipe", "connReset"}
+Broken(class) == class \in {"brokenPipe", "connReset", "brokenPipeWrapped", "connResetNested"}
 
 \* what the client gets: "500" (error page written by the recovery), "nothing" (broken connection: no write at
 \* all), "untouched" (the response the handler had started stays as it is)
